@@ -25,6 +25,18 @@ static int exetls_cb(struct dl_phdr_info *info, size_t, void *) {
     }
     return 1;       // the first entry is the main program; shared objects keep their own TLS (libc's errno and friends are not ours to swap)
 }
+// every module's thread-local block of this (the only) OS thread: libc's errno lives in one of them.  Real threads each
+// have their own, so an access there is never shared between simulated threads.
+static std::vector<std::pair<const uint8_t *, size_t>> g_tls_ranges; static bool g_tls_ranges_probed = false;
+static int tlsrange_cb(struct dl_phdr_info *info, size_t, void *) {
+    for (int i = 0; i < info->dlpi_phnum; ++i) if (info->dlpi_phdr[i].p_type == PT_TLS && info->dlpi_tls_data) g_tls_ranges.push_back({(const uint8_t *)info->dlpi_tls_data, (size_t)info->dlpi_phdr[i].p_memsz});
+    return 0;
+}
+bool in_thread_local_storage(const void *p) {
+    if (!g_tls_ranges_probed) { g_tls_ranges_probed = true; dl_iterate_phdr(tlsrange_cb, nullptr); }
+    for (auto &r : g_tls_ranges) if ((const uint8_t *)p >= r.first && (const uint8_t *)p < r.first + r.second) return true;
+    return false;
+}
 const ExeTls &exe_tls() { if (!g_exetls_probed) { g_exetls_probed = true; dl_iterate_phdr(exetls_cb, nullptr); } return g_exetls; }
 void exe_tls_reset() { const ExeTls &t = exe_tls(); if (!t.memsz) return; memcpy(t.block, t.image, t.filesz); memset(t.block + t.filesz, 0, t.memsz - t.filesz); }
 void exe_tls_save(std::vector<uint8_t> &to) { const ExeTls &t = exe_tls(); to.assign(t.block, t.block + t.memsz); }
